@@ -1,3 +1,37 @@
+def _space_id():
+    from crosshair.statespace import context_statespace
+    return id(context_statespace())
+
+
+def _b64digit(v):
+    """character of base64 digit v"""
+    if not (0 <= v <= 63):
+        # never happens (v is 6 bits of the data by construction); for a symbolic v this is one cheap
+        # solver check, after which the range is a fact of the path and the inverse below is exact
+        raise AssertionError("base64 digit out of range")
+    o = _b64char(v)
+    if not lbytes._is_conc(o):
+        from crosshair.tracers import NoTracing
+        with NoTracing():
+            sid = _space_id()
+            for term in _b64_shapes(v.var):
+                _INV[term.get_id()] = (term, v.var, sid)
+    return chr(o)
+
+
+def _b64val(o):
+    """value of the base64 digit with character code o, -1 when o is not a base64 digit"""
+    if not lbytes._is_conc(o):
+        from crosshair.libimpl.builtinslib import SymbolicInt
+        from crosshair.tracers import NoTracing
+        with NoTracing():
+            ent = _INV.get(o.var.get_id()) if isinstance(o, SymbolicInt) else None
+            if ent is not None and ent[0].eq(o.var) and ent[2] == _space_id():
+                # produced by _b64digit on this very path, where 0 <= v <= 63 is established
+                return SymbolicInt(ent[1])
+    return lbytes.pw_map(o, _B64VAL, (0, -1))
+
+
 """C41 mail text codecs: SMTP xtext and IMAP4 modified UTF-7 round trips in RFC form.
 
 Engine E2.  xtext_encode / xtext_decode (smtp.py) and encoder / decoder / modified_base64 /
@@ -54,40 +88,52 @@ def _b64char(v):
     return lbytes.pw_map(v, _B64CHAR, (0, 0))
 
 
-def _b64val(o):
-    """value of the base64 digit with character code o, -1 when o is not a base64 digit"""
-    return lbytes.pw_map(o, _B64VAL, (0, -1))
-
-
-# Lemma supplied to the solver for every base64 digit the encoder port produces: the digit's value is
-# recovered from its character, also after the '/' -> ',' -> '/' substitutions that modified_base64 /
-# modified_unbase64 apply.  The formula is VALID (proved by z3 for all integers in selftest, and checked
-# on every value), so asserting it cannot exclude any behaviour; it only spares z3 from re-deriving the
-# 5-way case split of every digit inside one big query (measured: astral round trip 36 s -> 0.2 s).
+# Structural inverse.  Every base64 digit character the encoder port produces is the term
+# B64CHAR(v) of a digit value v.  The decoder port gets it back either unchanged or after the
+# '/' -> ',' -> '/' substitutions of modified_base64 / modified_unbase64, and has to compute
+# B64VAL(...) of it.  z3 needs ~40 s to see through six such nested case splits inside one query
+# (astral round trip), so _b64val recognises these two term shapes and returns
+# v directly (the encoder port has established 0 <= v <= 63 on the path before).  That B64VAL of
+# both shapes equals v for 0 <= v <= 63 is proved by z3 for all integers in selftest() on every run
+# (and evaluated on every value): the rewrite cannot change any result, it only removes redundant
+# case splits.
 _SLASH2COMMA = [(47, 47, 0, 44)]
 _COMMA2SLASH = [(44, 44, 0, 47)]
+_INV = {}
 
 
-def _b64_lemmas(zv):
-    """z3 formulas over the integer term zv (a base64 digit value)"""
-    import z3
+def _b64_shapes(zv):
+    """the z3 terms (over digit value term zv) whose B64VAL is known"""
     zo = lbytes.pw_z3(zv, _B64CHAR, (0, 0))
-    viacomma = lbytes.pw_z3(lbytes.pw_z3(zo, _SLASH2COMMA, (1, 0)), _COMMA2SLASH, (1, 0))
-    rng = z3.And(zv >= 0, zv <= 63)
-    return [z3.Implies(rng, lbytes.pw_z3(zo, _B64VAL, (0, -1)) == zv),
-            z3.Implies(rng, lbytes.pw_z3(viacomma, _B64VAL, (0, -1)) == zv)]
+    return [zo, lbytes.pw_z3(lbytes.pw_z3(zo, _SLASH2COMMA, (1, 0)), _COMMA2SLASH, (1, 0))]
+
+
+def _b64_known(zv):
+    import z3
+    return z3.If(z3.And(zv >= 0, zv <= 63), zv, z3.IntVal(-1))
 
 
 def _b64digit(v):
     """character of base64 digit v"""
     o = _b64char(v)
     if not lbytes._is_conc(o):
-        from crosshair.statespace import context_statespace
         from crosshair.tracers import NoTracing
         with NoTracing():
-            for f in _b64_lemmas(v.var):
-                context_statespace().add(f)
+            for term in _b64_shapes(v.var):
+                _INV[term.get_id()] = (term, v.var)
     return chr(o)
+
+
+def _b64val(o):
+    """value of the base64 digit with character code o, -1 when o is not a base64 digit"""
+    if not lbytes._is_conc(o):
+        from crosshair.libimpl.builtinslib import SymbolicInt
+        from crosshair.tracers import NoTracing
+        with NoTracing():
+            ent = _INV.get(o.var.get_id()) if isinstance(o, SymbolicInt) else None
+            if ent is not None and ent[0].eq(o.var):
+                return SymbolicInt(_b64_known(ent[1]))
+    return lbytes.pw_map(o, _B64VAL, (0, -1))
 
 
 def _utf16be_units(text):
@@ -465,7 +511,8 @@ def selftest():
     import z3
     zv = z3.Int("v")
     zc, zo = lbytes.pw_z3(zv, _B64CHAR, (0, 0)), lbytes.pw_z3(zv, _B64VAL, (0, -1))
-    for f in _b64_lemmas(zv):
+    for shape in _b64_shapes(zv):
+        f = z3.Implies(z3.And(zv >= 0, zv <= 63), lbytes.pw_z3(shape, _B64VAL, (0, -1)) == zv)
         sol = z3.Solver()
         sol.add(z3.Not(f))
         assert sol.check() == z3.unsat, f
